@@ -97,6 +97,8 @@ fn table(tag: &str) -> Option<Vec<Slot>> {
         "set_freeze" => vec![Group, AccountGroupOnly, Signer(GroupAdmin)],
         "account_close" => vec![Account, Signer(AuthorityOnly), Free],
         "transfer_to_new_account" => vec![Group, Account, Free, Signer(User { recv: false }), Free, Free, StoredDest, SystemProgram],
+        "transfer_to_new_account_pda" => vec![Group, Account, Free, Signer(User { recv: false }), Free, Free, StoredDest, Sysvar, SystemProgram],
+        "init_bank_metadata" => vec![Free, Free, BankPda, SystemProgram],
         "start_flashloan" => vec![Account, Signer(AuthorityOnly), Sysvar],
         "end_flashloan" => vec![Account, Signer(AuthorityOnly)],
         "withdraw_emissions" => vec![Group, Account, Signer(User { recv: false }), Bank, BoundMint, BankPda, BankPda, Free, TokenProgram],
